@@ -185,8 +185,9 @@ func (store *BaseStore[E]) addSymbol(name string, public bool, symbol EntitySymb
 	return symbol
 }
 
-func (store *BaseStore[E]) inheritMapSymbol(symbol *entityMapSymbol) {
-	store.mapSymbols[symbol.key] = symbol
+func (store *BaseStore[E]) inheritMapSymbol(name string, symbol *entityMapSymbol) {
+	// registered under the name it has in the granting store, which need not be the key it is stored under
+	store.mapSymbols[name] = symbol
 }
 
 func (store *BaseStore[E]) GrantSymbols(child ConfigurableStore) {
@@ -194,7 +195,7 @@ func (store *BaseStore[E]) GrantSymbols(child ConfigurableStore) {
 		child.addSymbol(name, store.IsPublicSymbol(name), value)
 	}
 	for name, value := range store.mapSymbols {
-		child.inheritMapSymbol(value)
+		child.inheritMapSymbol(name, value)
 		if store.IsPublicSymbol(name) {
 			child.MakeSymbolPublic(name)
 		}
